@@ -84,7 +84,8 @@ def locked_nodes(rel, out=None, seen=None):
     if id(rel) in seen:
         return out
     seen.add(id(rel))
-    if rel.is_locked:
+    from lsst.daf.relation import LeafRelation, Materialization
+    if isinstance(rel, (LeafRelation, Materialization)):  # "locked relations (leaves and materializations)" - not rel.is_locked
         out.setdefault(getattr(rel, "name", None), []).append(rel)
     if isinstance(rel, UnaryOperationRelation):
         locked_nodes(rel.target, out, seen)
